@@ -72,7 +72,7 @@ func mkConfig(e common.Entry, truecolor bool) config {
 	c.caps.CursorStyles = ti.CursorDefault != "" || mouse || xt
 	c.caps.CursorColor = true
 	c.brTrick = ti.AutoMargin && ti.DisableAutoMargin == "" && ti.InsertChar != ""
-	c.quirks = vt.Quirks{FFClears: strings.HasPrefix(ti.Name, "sun"), AltFont: ti.EnterAcs == "\x1b[11m", NoAutoWrap: !ti.AutoMargin}
+	c.quirks = vt.Quirks{FFClears: strings.HasPrefix(ti.Name, "sun"), AltFont: ti.EnterAcs == "\x1b[11m" || ti.EnterAcs == "\x1b[12m", NoAutoWrap: !ti.AutoMargin}
 	// aixterm and pcansi define "original pair" as an explicit colour pair: what ColorReset
 	// shows there is not "the terminal default", so colours of such cells are not compared
 	if ti.ResetFgBg != "" {
@@ -189,7 +189,7 @@ func scenarios() []scenario {
 		for x := 0; x < 4; x++ {
 			ops = append(ops, op{kind: "set", x: x, r: 'a'}, op{kind: "set", x: x, r: '世'})
 		}
-		ops = append(ops, op{kind: "set", x: 1, r: '界', st: 1}, op{kind: "set", x: 2, r: 'e', comb: []rune{0x0301}}, op{kind: "set", x: 0, r: 'e', comb: []rune{0x0301, 0x0302}},
+		ops = append(ops, op{kind: "set", x: 1, r: '界', st: 1}, op{kind: "set", x: 2, r: 'e', comb: []rune{0x0301}}, op{kind: "set", x: 2, r: 'e', comb: []rune{0x0300}}, op{kind: "set", x: 0, r: 'e', comb: []rune{0x0301, 0x0302}},
 			op{kind: "fill", r: 'b'}, op{kind: "fill", r: '世'}, op{kind: "clear"}, show)
 		out = append(out, scenario{"W-wide-4x1", 4, 1, ops, 4, 6, nil})
 		// the same alphabet from a painted screen (every cell clean, holding 'b')
@@ -326,11 +326,7 @@ func newSysLocale(cfg *config, sc *scenario, locale, charset string) *dsys {
 }
 
 func (d *dsys) Close() {
-	done := make(chan struct{})
-	go func() { d.s.Fini(); close(done) }()
-	select {
-	case <-done:
-	case <-time.After(30 * time.Second):
+	if !common.Finishes(func() { d.s.Fini() }) {
 		atomic.AddInt32(&stuck, 1)
 	}
 }
@@ -436,9 +432,10 @@ func (d *dsys) Apply(i int) (sig, desc string) {
 			return "resize-callback", "no resize callback is registered on the tty while the screen is running"
 		}
 		dead := int32(0)
-		tm := time.AfterFunc(20*time.Second, func() { atomic.StoreInt32(&dead, 1); d.tty.Kick() })
+		stop := make(chan struct{})
+		common.WatchIdle(stop, func() { atomic.StoreInt32(&dead, 1); d.tty.Kick() })
 		ok := d.tty.WaitWrites(n, func() bool { return atomic.LoadInt32(&dead) == 1 })
-		tm.Stop()
+		close(stop)
 		if !ok {
 			return "resize-no-redraw", fmt.Sprintf("%v: the screen did not redraw after the terminal reported a new size", o)
 		}
@@ -751,6 +748,125 @@ func c09Scenarios() []scenario {
 	return []scenario{{"X-extreme-values-4x1", 4, 1, ops, 3, 4, nil}}
 }
 
+// lifecycle (C09): every ECMA-48-family entry x {UTF-8, ISO8859-1}: one fixed walk through
+// every capability the screen ever writes (init, modes, styles, cursor shapes, title,
+// clipboard, clear, sync, beep, suspend/resume, fini). The stream must tokenize, and every
+// character printed as text must be one that cell content accounts for: the cells hold only
+// 'Q', a wide rune, a line-drawing rune and blanks, so any other printed character is
+// residue of a capability string (padding specification, parameter language).
+func lifecycle(entries []common.Entry) {
+	locales := []struct{ env, cs string }{{"en_US.UTF-8", "UTF-8"}, {"en_US.ISO8859-1", "ISO8859-1"}}
+	item := 5000
+	n := 0
+	for _, e := range entries {
+		if !isFamily(e.Ti) {
+			continue
+		}
+		for _, loc := range locales {
+			for _, tc := range []bool{false, true} {
+				item++
+				if !hc.Mine(item) {
+					continue
+				}
+				n++
+				cfg := mkConfig(e, tc)
+				sc := &scenario{name: "lifecycle", w: 4, h: 2}
+				d := newSysLocale(&cfg, sc, loc.env, loc.cs)
+				s := d.s
+				allowed := map[rune]bool{'Q': true, ' ': true, 0x4e16: true, tcell.RuneHLine: true, '?': true}
+				for _, c := range tcell.RuneFallbacks[tcell.RuneHLine] {
+					allowed[c] = true
+				}
+				// the glyph the reference terminal shows for the byte the entry assigns to
+				// the horizontal line (ansi/pcansi/cygwin draw scan lines 1-9 with one byte)
+				for a := cfg.ti.AltChars; len(a) >= 2; a = a[2:] {
+					if a[0] == 'q' {
+						allowed[d.term.Q.AcsMap[a[1]]] = true
+					}
+				}
+				step := func(what string) {
+					bad := ""
+					switch {
+					case len(d.term.Errors) > d.errSeen:
+						bad = "output not well formed: " + d.term.Errors[d.errSeen]
+						d.errSeen = len(d.term.Errors)
+					case d.term.InString():
+						bad = "output ends inside a control sequence or character"
+					case d.term.Scrolled > 0:
+						bad = "the terminal scrolled"
+						d.term.Scrolled = 0
+					}
+					var stray []rune
+					for _, pr := range d.term.Text {
+						if !allowed[pr] {
+							stray = append(stray, pr)
+						}
+					}
+					d.term.Text = d.term.Text[:0]
+					if bad == "" && len(stray) > 0 {
+						bad = fmt.Sprintf("text %q was printed that no cell content accounts for", string(stray))
+					}
+					if bad != "" {
+						w.Violation("lifecycle:"+what+":"+familyOf(&cfg), fmt.Sprintf("%s (direct colour %v), locale %s, after %s: %s", e.Name, tc, loc.cs, what, bad),
+							map[string]interface{}{"entry": e.Name, "locale": loc.env, "step": what})
+					}
+				}
+				step("Init")
+				s.EnableMouse()
+				s.EnablePaste()
+				s.EnableFocus()
+				step("EnableMouse/EnablePaste/EnableFocus")
+				for i, si := range []int{12, 5, 6, 10} {
+					s.SetContent(i, 0, 'Q', nil, styles[si].Style())
+				}
+				s.SetContent(0, 1, 0x4e16, nil, styles[11].Style())
+				s.SetContent(2, 1, tcell.RuneHLine, nil, styles[1].Style())
+				s.ShowCursor(1, 1)
+				s.Show()
+				step("Show")
+				for cs := tcell.CursorStyleDefault; cs <= tcell.CursorStyleSteadyBar; cs++ {
+					s.SetCursorStyle(cs, tcell.NewRGBColor(1, 2, 3))
+					s.Show()
+				}
+				s.SetCursorStyle(tcell.CursorStyleDefault, tcell.ColorReset)
+				s.Show()
+				step("SetCursorStyle")
+				s.SetTitle("Q Q")
+				s.SetClipboard([]byte("Q"))
+				s.GetClipboard()
+				_ = s.Beep()
+				step("SetTitle/SetClipboard/GetClipboard/Beep")
+				s.Clear()
+				s.Show()
+				step("Clear+Show")
+				s.Fill('Q', styles[3].Style())
+				s.HideCursor()
+				s.Sync()
+				step("Fill+Sync")
+				s.SetSize(3, 2)
+				s.Show()
+				step("SetSize")
+				if common.Finishes(func() { _ = s.Suspend() }) {
+					step("Suspend")
+					_ = s.Resume()
+					s.Show()
+					step("Resume")
+				}
+				s.DisableMouse()
+				s.DisablePaste()
+				s.DisableFocus()
+				step("Disable*")
+				d.Close()
+				step("Fini")
+				w.R.Evaluations++
+				w.AddDistinct(1)
+			}
+		}
+	}
+	os.Setenv("LC_ALL", "en_US.UTF-8")
+	w.R.Scenarios["lifecycle_walks"] = n
+}
+
 // ---------- driver ----------
 
 func main() {
@@ -759,7 +875,7 @@ func main() {
 	w.R.Rule = "explicit-state BFS (depth per scenario; states merged only on equal private screen state + reference terminal grid/registers + model bookkeeping) over draw histories on the real terminfo screen with a fake Tty feeding the reference terminal; scenarios: wide-rune neighbourhood 4x1, style/colour cache 2x2 (10 styles: palette, bright, RGB, none/reset, named, underline styles/colours, url), cursor 3x2, lock regions 3x2, resize/Sync/external corruption, mixed incl. out-of-range coordinates and control runes; configurations: one entry per draw-signature class of the ECMA-48 family (thorough: every family entry) x direct colour on/off. Oracle after every Show/Sync/resize redraw: " +
 		map[string]string{"C17": "", "C01": "terminal grid == expected display of the shadow model (rune, combining, colours incl. CIE76-nearest, attributes, underline style/colour, hyperlink) and cursor position/visibility/shape/colour", "C13": "cells stamped by the Show block are a subset of the cells changed since the previous Show (+ wide-rune columns, + bottom-right helper cell), never a locked cell", "C09": "the strict tokenizer accepted every byte written (complete CSI/OSC/ESC sequences, numeric parameters, valid UTF-8, no C0/C1 controls in text), no scroll, block ends in ground state"}[*prop] +
 		". distinct_nontrivial = distinct canonical states reached"
-	w.R.Assumptions = []string{"the reference terminal (ref/vt) is this project's reading of ECMA-48/xterm: deferred wrap, overwriting half of a wide character blanks the other half, back-colour erase", "rune widths from go-runewidth on both sides", "which attributes/underline/hyperlink/cursor features a terminal has is derived from the entry's capability strings with tcell's documented rule 'mouse capability or xterm name => xterm extensions'", "resize notifications are synchronised by waiting for the redraw's Write (20 s watchdog reports a missing redraw as a violation)"}
+	w.R.Assumptions = []string{"the reference terminal (ref/vt) is this project's reading of ECMA-48/xterm: deferred wrap, overwriting half of a wide character blanks the other half, back-colour erase", "rune widths from go-runewidth on both sides", "which attributes/underline/hyperlink/cursor features a terminal has is derived from the entry's capability strings with tcell's documented rule 'mouse capability or xterm name => xterm extensions'", "resize notifications are synchronised by waiting for the redraw's Write (a missing redraw is reported only when the call has been outstanding for 120 s and the whole process has been idle for 60 s: load cannot trigger it)"}
 
 	entries := common.Entries()
 	var cfgs []config
@@ -843,6 +959,7 @@ func main() {
 
 	if *prop == "C09" {
 		sweep(entries)
+		lifecycle(entries)
 		// histories specific to C09: fewer, the rest is covered by the C01/C13 runs
 		var keep []scenario
 		for _, sc := range scs {
@@ -928,7 +1045,7 @@ func main() {
 		}
 	}
 	if n := atomic.LoadInt32(&stuck); n > 0 {
-		w.Violation("fini-hang", fmt.Sprintf("Fini() did not return within 30 s for %d explored states", n), nil)
+		w.Violation("fini-hang", fmt.Sprintf("Fini() did not return for %d explored states (every goroutine of the process blocked for 60 s)", n), nil)
 	}
 	for i := int64(0); i < w.R.States; i++ {
 		w.Distinct(uint64(*hc.Shard)<<40 | uint64(i))
